@@ -12,10 +12,16 @@ The atomic events are the pieces of code between two `.await` points of the task
 * per reusable stream, the task `ReusableStream::run` (`closeData`, `closeFrame`, `joinedA`, `push`, `sendOpen`,
   `joinedC`) and its `recv_open_task` (`recvOpenStart`, `discard`);
 * the `StreamQueue` rendez-vous between a reusable stream and an application `open()` call (`pop`);
-* the transport writer and the flush task (`doFlush`; emitting a frame is part of the event that sends it);
+* the bounded(1) channel `write_send`, the transport writer task (`wtake`: `write_recv.recv`, `wdo`: the frame is
+  written / the transport is flushed, `wblock`: the transport does not take the frame) and the flush task (`doFlush`:
+  the `Flush` command goes into the channel);
 * the application's calls on a transient stream: `read_exact` (`appRead` + `readStep` per frame consumed),
-  `write_all` (`appWrite` + `writeStep` per loop iteration), `flush`, dropping a half (`appDrop`);
-* the peer / transport: `wireIn` (a complete frame written by the peer), `wireEof`.
+  `write_all` (`appWrite` + `writeStep` per loop iteration), `flush` (`appFlush` + `flushStep`), dropping a half
+  (`appDrop`), and the cancellation of the context of one call while it is suspended at its await point
+  (`cancelWrite`, `cancelFlush`: the only await of `write_all` / `flush` is `write_send.reserve_or_disconnected(ctx)`
+  inside `send_data`, which comes *before* the write buffer is moved into the frame);
+* the peer / transport: `wireIn` (a complete frame written by the peer), `wireEof`, `txWindow` (how many bytes the
+  transport is willing to take from the writer task: back-pressure).
 
 "Every interleaving" is "every list of events accepted by `step?`". The deterministic `settle` used by the
 correspondence driver only ever applies `step?`, so every state the driver reaches is reachable in the LTS.
@@ -27,10 +33,15 @@ correspondence driver only ever applies `step?`, so every state the driver reach
   always succeeds.
 * unbounded channel (`read_send`/`read_recv`): FIFO, never loses or duplicates; after the sender is dropped the
   receiver still yields the queued frames, then `Disconnected`.
-* bounded(1) channel `write_send` + the writer task: frames reach the transport in the order in which their
-  `send`/`reserve` completed; emitting a frame is one atomic step here.
-* `Notify` (`flush`): `notify_one` followed eventually by one `Flush` command, which is ordered after every frame
-  sent before the `notify_one` (`flushReq`, `doFlush`); notifications coalesce.
+* bounded(1) channel `write_send` + the writer task: one slot (`chan`); `send` / `reserve` complete iff the slot is free
+  (any of the suspended senders may get it: the LTS does not fix an order, the driver's scheduler serves them first
+  come first served like tokio's fair semaphore); `recv` frees the slot before the command is written (`wcur`), so one
+  command can be in the writer's hands and one in the slot. A cancelled `reserve` leaves no trace.
+* the transport takes a frame whole or not at all (`wdo` is enabled iff fewer than `txLimit` bytes have been written);
+  when it does not, what was written before becomes visible to the peer (`wblock`). This is the in-memory transport of
+  the harness; a byte-granular transport only adds states in which the peer has seen a prefix of a frame.
+* `Notify` (`flush`): `notify_one` followed eventually by one `Flush` command through the same channel, hence ordered
+  after every frame sent before the `notify_one` (`flushReq`, `doFlush`); notifications coalesce.
 * `StreamQueue` (bounded(1) channel + `sync::Mutex` around the receiver): both sides are served first-come
   first-served (tokio's semaphore and mutex are fair), i.e. two FIFOs that are matched head to head (`pop`).
 * `oneshot` / `ExclusiveLock`: the value arrives exactly once, when the lock is dropped.
@@ -174,6 +185,15 @@ structure OFrame where
   data : List Nat
   deriving Repr, DecidableEq, Inhabited
 
+/-- bytes of a frame on the transport: header, and for DATA the length and the payload -/
+def OFrame.wireSize (f : OFrame) : Nat := if f.kind = .data then 4 + f.data.length else 2
+
+/-- `WriteCommand` -/
+inductive Cmd where
+  | frame (f : OFrame)
+  | flush
+  deriving Repr, DecidableEq, Inhabited
+
 /-- `recv_open_task` -/
 inductive RPhase where
   /-- `read_receiver.wait(ctx)` -/
@@ -209,10 +229,32 @@ structure PendRead where
   got : List Nat
   deriving Repr, DecidableEq, Inhabited
 
-/-- a `write_all` in flight -/
+/-- a `write_all` in flight: `rest` = `buf[offset..]` -/
 structure PendWrite where
   slot : Nat
   rest : List Nat
+  -- ghost
+  /-- `buf[..offset]`: what has been copied into the write buffer so far -/
+  done : List Nat := []
+  /-- `buffer.len()` when the call started -/
+  fill0 : Nat := 0
+  deriving Repr, DecidableEq, Inhabited
+
+/-- how a `write_all` call ended -/
+inductive WRes where
+  | ok
+  /-- the context of the call was cancelled while it was suspended in `send_data` -/
+  | canceled
+  /-- `RunError::Closed`: the multiplexer is gone -/
+  | err
+  deriving Repr, DecidableEq, Inhabited
+
+/-- ghost record of a finished `write_all(data)`: `took` bytes of `data` had been copied into the write buffer -/
+structure WCall where
+  data : List Nat
+  took : Nat
+  fill0 : Nat
+  res : WRes
   deriving Repr, DecidableEq, Inhabited
 
 structure StreamSt where
@@ -231,6 +273,8 @@ structure StreamSt where
   wbuf : List Nat := []
   pendR : Option PendRead := none
   pendW : Option PendWrite := none
+  /-- a `flush` in flight (the slot that called it) -/
+  pendF : Option Nat := none
   /-- OPEN sent and CLOSE not yet sent -/
   txOpen : Bool := false
   -- ghost history (never read by `step?` guards)
@@ -240,8 +284,10 @@ structure StreamSt where
   sessStart : Nat := 0
   /-- bytes copied into application buffers since then -/
   delivered : List Nat := []
-  /-- bytes passed to `write_all` since the last OPEN was sent -/
+  /-- bytes passed to `write_all` since the last OPEN was sent (minus what a cancelled / failed call did not take) -/
   wlog : List Nat := []
+  /-- the finished `write_all` calls since the last OPEN was sent, in order -/
+  calls : List WCall := []
   /-- payload bytes emitted since the last OPEN was sent -/
   sent : List Nat := []
   deriving Repr, Inhabited
@@ -276,6 +322,8 @@ inductive Done where
   | opened (slot : Nat) (conn : Bool) (id : Nat)
   | read (slot : Nat) (bytes : List Nat) (eos : Bool)
   | wrote (slot : Nat) (ok : Bool)
+  /-- `write_all` / `flush` returned `Canceled` -/
+  | canceled (slot : Nat)
   deriving Repr, DecidableEq, Inhabited
 
 structure State where
@@ -295,11 +343,21 @@ structure State where
   /-- bytes read from the transport after the handshake -/
   pulled : Nat
   dead : Option RunErr
-  /-- frames handed to the transport writer, oldest first -/
+  /-- frames handed to the channel `write_send`, oldest first (log: in the order in which `send` / `reserve` completed) -/
   out : List OFrame
-  /-- how many of them have been flushed -/
+  /-- the slot of the bounded(1) channel `write_send` -/
+  chan : Option Cmd
+  /-- the command the writer task has received and not finished yet -/
+  wcur : Option Cmd
+  /-- frames written to the transport, oldest first -/
+  wire : List OFrame
+  /-- how many of them have been flushed (are visible to the peer) -/
   flushed : Nat
   flushReq : Bool
+  /-- bytes of frames written to the transport -/
+  txSent : Nat
+  /-- back-pressure: the transport takes a frame only while `txSent < txLimit` (`none`: always) -/
+  txLimit : Option Nat
   /-- `StreamQueue`s: reusable streams waiting inside `push`, per (kind, capability), first come first -/
   qPushed : Bool → Nat → List Nat
   /-- application `open()` calls waiting, per (kind, capability) -/
@@ -328,7 +386,7 @@ def State.start (cfg : Cfg) (acc con pacc pcon : Caps) : State :=
   { cfg, rngAcc := ra, rngCon := rc, nAcc := rangesTotal ra, nCon := rangesTotal rc,
     st := fun _ => {}, countAvail := cfg.rfc, sizeAvail := cfg.rbs,
     rx := [], rxEof := false, cur := .idle, pulled := 0, dead := none,
-    out := [], flushed := 0, flushReq := false,
+    out := [], chan := none, wcur := none, wire := [], flushed := 0, flushReq := false, txSent := 0, txLimit := none,
     qPushed := fun _ _ => [], qWait := fun _ _ => [], slots := fun _ => .free, slotList := [],
     doneLog := [], dispatched := [], rxDone := [], runq := [] }
 
@@ -352,9 +410,9 @@ def State.releaseOpt (s : State) (o : Option RFrame) : State :=
   { s with countAvail := s.countAvail + (match o with | none => 0 | some _ => 1),
            sizeAvail := s.sizeAvail + (match o with | none => 0 | some f => f.size) }
 
-/-- hand a frame to the transport writer -/
+/-- `slot.send(WriteCommand::Frame(frame))`: the frame goes into the (free) slot of the channel -/
 def State.emit (s : State) (k : Key) (fk : FK) (data : List Nat) : State :=
-  { s with out := s.out ++ [⟨k.conn, k.id, fk, data⟩] }
+  { s with out := s.out ++ [⟨k.conn, k.id, fk, data⟩], chan := some (.frame ⟨k.conn, k.id, fk, data⟩) }
 
 def State.setSlot (s : State) (slot : Nat) (v : Slot) : State :=
   { s with slots := fun x => if x = slot then v else s.slots x }
@@ -385,8 +443,14 @@ inductive Event where
   | joinedC (k : Key)
   -- StreamQueue rendez-vous
   | pop (conn : Bool) (cap : Nat)
-  -- flush task + writer
+  -- flush task
   | doFlush
+  -- writer task
+  | wtake
+  | wdo
+  | wblock
+  -- transport back-pressure
+  | txWindow (limit : Option Nat)
   -- application
   | appOpen (slot : Nat) (conn : Bool) (cap : Nat)
   | appRead (slot : Nat) (n : Nat)
@@ -394,7 +458,11 @@ inductive Event where
   | appWrite (slot : Nat) (bytes : List Nat)
   | writeStep (k : Key)
   | appFlush (slot : Nat)
+  | flushStep (k : Key)
   | appDrop (slot : Nat) (r w : Bool)
+  -- the context of a call in flight is cancelled
+  | cancelWrite (k : Key)
+  | cancelFlush (k : Key)
   deriving Repr, DecidableEq, Inhabited
 
 /-- the end of the `OPEN` exchange: both locks go to the application slot, the loop starts its next iteration
@@ -476,19 +544,23 @@ def stepDiscard (s : State) (k : Key) : Option State :=
       if f.kind = .open then { t with queue := q, taken := taken, rphase := .done, sessStart := taken.length, delivered := [] }
       else { t with queue := q, taken := taken })).release f)
 
-/-- `send_close`, first part (`send_data`), once the write lock came back -/
+/-- `send_close`, first part (`send_data`), once the write lock came back. `send_data`: nothing to do for an empty buffer;
+otherwise wait for the slot of the channel, *then* move the buffer into the frame and send it. -/
 def stepCloseData (s : State) (k : Key) : Option State :=
   let t := s.st k
   if s.dead.isSome || !k.valid s || t.mphase != .waitWrite || t.writeHeld then none else
   if t.wbuf = [] then some (s.upd k (fun t => { t with mphase := .closing }))
+  else if s.chan.isSome then none      -- `write_send.reserve_or_disconnected(ctx)` is pending
   else some ((s.upd k (fun t => { t with mphase := .closing, wbuf := [], sent := t.sent ++ t.wbuf })).emit k .data t.wbuf)
 
 /-- `send_close`, the CLOSE frame and `flush.notify_one()`; then (limiter: `Rate::INF`) on to the OPEN exchange -/
 def stepCloseFrame (s : State) (k : Key) : Option State :=
   let t := s.st k
   if s.dead.isSome || !k.valid s || t.mphase != .closing then none else
+  if s.chan.isSome then none           -- `write_send.send(ctx, ..)` is pending
+  else
   some { (s.upd k (fun t => { t with mphase := if k.conn then .wantPush else .joinA, txOpen := false,
-                                     sent := [], wlog := [] })).emit k .close [] with flushReq := true }
+                                     sent := [], wlog := [], calls := [] })).emit k .close [] with flushReq := true }
 
 /-- ACCEPT: `recv_open_task.join(ctx)` returns -/
 def stepJoinedA (s : State) (k : Key) : Option State :=
@@ -522,7 +594,9 @@ def stepSendOpen (s : State) (k : Key) : Option State :=
   if s.dead.isSome || !k.valid s then none else
   match t.mphase with
   | .reserved slot =>
-    let s1 := { (s.upd k (fun t => { t with txOpen := true, sent := [], wlog := [] })).emit k .open [] with flushReq := true }
+    if s.chan.isSome then none         -- `write_send.send(ctx, ..)` is pending
+    else
+    let s1 := { (s.upd k (fun t => { t with txOpen := true, sent := [], wlog := [], calls := [] })).emit k .open [] with flushReq := true }
     if k.conn then some (s1.upd k (fun t => { t with mphase := .joinC slot }))
     else some (handover s1 k slot)
   | _ => none
@@ -535,9 +609,40 @@ def stepJoinedC (s : State) (k : Key) : Option State :=
   | .joinC slot => some (handover s k slot)
   | _ => none
 
+/-- the flush task: `notified(ctx, &flush)` has returned, `write_send.send(ctx, WriteCommand::Flush)` -/
 def stepDoFlush (s : State) : Option State :=
-  if s.dead.isSome || !s.flushReq then none else
-  some { s with flushReq := false, flushed := s.out.length }
+  if s.dead.isSome || !s.flushReq || s.chan.isSome then none else
+  some { s with flushReq := false, chan := some .flush }
+
+/-- the transport takes the next frame -/
+def State.txReady (s : State) : Bool :=
+  match s.txLimit with
+  | none => true
+  | some l => decide (s.txSent < l)
+
+/-- the writer task: `write_recv.recv(ctx)` — the slot of the channel is free again -/
+def stepWTake (s : State) : Option State :=
+  if s.dead.isSome || s.wcur.isSome then none else
+  match s.chan with
+  | none => none
+  | some c => some { s with wcur := some c, chan := none }
+
+/-- the writer task: the received command is carried out (`io::write_all` of header, length, payload / `io::flush`) -/
+def stepWDo (s : State) : Option State :=
+  if s.dead.isSome then none else
+  match s.wcur with
+  | none => none
+  | some .flush => some { s with wcur := none, flushed := s.wire.length }
+  | some (.frame f) =>
+    if !s.txReady then none else
+    some { s with wcur := none, wire := s.wire ++ [f], txSent := s.txSent + f.wireSize }
+
+/-- the transport does not take the frame: what was written before it reaches the peer -/
+def stepWBlock (s : State) : Option State :=
+  if s.dead.isSome then none else
+  match s.wcur with
+  | some (.frame _) => if s.txReady || s.flushed == s.wire.length then none else some { s with flushed := s.wire.length }
+  | _ => none
 
 /-- application: `queue.open(ctx)` -/
 def stepAppOpen (s : State) (slot : Nat) (conn : Bool) (cap : Nat) : Option State :=
@@ -573,9 +678,16 @@ def stepReadStep (s : State) (k : Key) : Option State :=
 def stepAppWrite (s : State) (slot : Nat) (bytes : List Nat) : Option State :=
   match s.slots slot with
   | .held k _ true =>
-    if (s.st k).pendW.isSome then none else
-    some (s.upd k (fun t => { t with pendW := some ⟨slot, bytes⟩, wlog := t.wlog ++ bytes }))
+    if (s.st k).pendW.isSome || (s.st k).pendF.isSome then none else
+    some (s.upd k (fun t => { t with pendW := some ⟨slot, bytes, [], t.wbuf.length⟩, wlog := t.wlog ++ bytes }))
   | _ => none
+
+/-- the record of a `write_all` that returns now -/
+def PendWrite.call (p : PendWrite) (r : WRes) : WCall := ⟨p.done ++ p.rest, p.done.length, p.fill0, r⟩
+
+/-- a `write_all` returns without having copied `p.rest`: those bytes were never accepted -/
+def StreamSt.endWrite (t : StreamSt) (p : PendWrite) (r : WRes) : StreamSt :=
+  { t with pendW := none, wlog := t.wlog.take (t.wlog.length - p.rest.length), calls := t.calls ++ [p.call r] }
 
 /-- one iteration of the loop of `WriteStream::write_all` -/
 def stepWriteStep (s : State) (k : Key) : Option State :=
@@ -584,35 +696,73 @@ def stepWriteStep (s : State) (k : Key) : Option State :=
   match t.pendW with
   | none => none
   | some p =>
-    if p.rest = [] then some ((s.upd k (fun t => { t with pendW := none })).log (.wrote p.slot true)) else
+    if p.rest = [] then some ((s.upd k (fun t => { t with pendW := none, calls := t.calls ++ [p.call .ok] })).log (.wrote p.slot true)) else
     -- `if self.0.buffer.capacity() == 0 { self.0.send_data(ctx).await?; }`
     if t.wbuf.length = s.cfg.wfs ∧ t.wbuf ≠ [] then
-      if s.dead.isSome then some ((s.upd k (fun t => { t with pendW := none })).log (.wrote p.slot false))
+      -- `send_data`: `reserve_or_disconnected(ctx).await?.map_err(|_| RunError::Closed)?`, then the buffer is moved into the frame
+      if s.dead.isSome then some ((s.upd k (fun t => t.endWrite p .err)).log (.wrote p.slot false))
+      else if s.chan.isSome then none      -- the reservation is pending (`cancelWrite` applies here)
       else some ((s.upd k (fun t => { t with wbuf := [], sent := t.sent ++ t.wbuf })).emit k .data t.wbuf)
     else
       -- `offset += self.0.buffer.push(&buf[offset..])`
       let n := min (s.cfg.wfs - t.wbuf.length) p.rest.length
       if n = 0 then none      -- write_frame_size = 0: the Rust loop spins forever without making progress
-      else some (s.upd k (fun t => { t with wbuf := t.wbuf ++ p.rest.take n, pendW := some { p with rest := p.rest.drop n } }))
+      else some (s.upd k (fun t => { t with wbuf := t.wbuf ++ p.rest.take n,
+                                            pendW := some { p with rest := p.rest.drop n, done := p.done ++ p.rest.take n } }))
 
-/-- application: `write.flush(ctx)`: `send_data` + `flush.notify_one()` -/
+/-- the context passed to a `write_all` in flight is cancelled. The call notices it at its only await, the reservation
+of the channel slot inside `send_data` (`reserve_or_disconnected(ctx).await?`), i.e. with the write buffer full and
+bytes left to copy; it returns `Canceled`. The buffer has not been touched yet. (Whether the slot is free at that
+moment does not matter: `ctx.wait` may see the cancellation first.) -/
+def stepCancelWrite (s : State) (k : Key) : Option State :=
+  let t := s.st k
+  if !k.valid s then none else
+  match t.pendW with
+  | none => none
+  | some p =>
+    if p.rest ≠ [] ∧ t.wbuf.length = s.cfg.wfs ∧ t.wbuf ≠ [] then
+      some ((s.upd k (fun t => t.endWrite p .canceled)).log (.canceled p.slot))
+    else none
+
+/-- application: `write.flush(ctx)` starts -/
 def stepAppFlush (s : State) (slot : Nat) : Option State :=
   match s.slots slot with
   | .held k _ true =>
     let t := s.st k
-    if t.pendW.isSome then none else
-    if t.wbuf = [] then some ({ s with flushReq := true }.log (.wrote slot true))
-    else if s.dead.isSome then some (s.log (.wrote slot false))
-    else some ({ (s.upd k (fun t => { t with wbuf := [], sent := t.sent ++ t.wbuf })).emit k .data t.wbuf with
-                 flushReq := true }.log (.wrote slot true))
+    if t.pendW.isSome || t.pendF.isSome then none else
+    some (s.upd k (fun t => { t with pendF := some slot }))
   | _ => none
+
+/-- `WriteStream::flush`: `send_data(ctx).await?` + `flush.notify_one()` -/
+def stepFlushStep (s : State) (k : Key) : Option State :=
+  let t := s.st k
+  if !k.valid s then none else
+  match t.pendF with
+  | none => none
+  | some slot =>
+    if t.wbuf = [] then some ({ s.upd k (fun t => { t with pendF := none }) with flushReq := true }.log (.wrote slot true))
+    else if s.dead.isSome then some ((s.upd k (fun t => { t with pendF := none })).log (.wrote slot false))
+    else if s.chan.isSome then none      -- the reservation is pending (`cancelFlush` applies here)
+    else some ({ (s.upd k (fun t => { t with pendF := none, wbuf := [], sent := t.sent ++ t.wbuf })).emit k .data t.wbuf with
+                 flushReq := true }.log (.wrote slot true))
+
+/-- the context passed to a `flush` in flight is cancelled at the reservation inside `send_data`: `Canceled`, nothing
+has been taken out of the buffer, no notification. -/
+def stepCancelFlush (s : State) (k : Key) : Option State :=
+  let t := s.st k
+  if !k.valid s then none else
+  match t.pendF with
+  | none => none
+  | some slot =>
+    if t.wbuf ≠ [] then some ((s.upd k (fun t => { t with pendF := none })).log (.canceled slot))
+    else none
 
 /-- application: drop the read half (`r`) and / or the write half (`w`) a slot still holds -/
 def stepAppDrop (s : State) (slot : Nat) (r w : Bool) : Option State :=
   match s.slots slot with
   | .held k hr hw =>
     let t := s.st k
-    if (r && hr && t.pendR.isSome) || (w && hw && t.pendW.isSome) then none else
+    if (r && hr && t.pendR.isSome) || (w && hw && (t.pendW.isSome || t.pendF.isSome)) then none else
     some ((s.upd k (fun t => { t with readHeld := if r && hr then false else t.readHeld,
                                        writeHeld := if w && hw then false else t.writeHeld })).setSlot slot
            (.held k (hr && !r) (hw && !w)))
@@ -632,13 +782,20 @@ def step? (s : State) : Event → Option State
   | .sendOpen k => stepSendOpen s k
   | .joinedC k => stepJoinedC s k
   | .doFlush => stepDoFlush s
+  | .wtake => stepWTake s
+  | .wdo => stepWDo s
+  | .wblock => stepWBlock s
+  | .txWindow l => some { s with txLimit := l }
   | .appOpen slot conn cap => stepAppOpen s slot conn cap
   | .appRead slot n => stepAppRead s slot n
   | .readStep k => stepReadStep s k
   | .appWrite slot bytes => stepAppWrite s slot bytes
   | .writeStep k => stepWriteStep s k
   | .appFlush slot => stepAppFlush s slot
+  | .flushStep k => stepFlushStep s k
   | .appDrop slot r w => stepAppDrop s slot r w
+  | .cancelWrite k => stepCancelWrite s k
+  | .cancelFlush k => stepCancelFlush s k
 
 /-- run a list of events; `none` as soon as one is not enabled -/
 def run? (s : State) : List Event → Option State
@@ -652,30 +809,39 @@ def keysOf (s : State) : List Key :=
 
 /-- the internal events of one stream, in the order the scheduler tries them -/
 def keyEvents (k : Key) : List Event :=
-  [.readStep k, .writeStep k, .recvOpenStart k, .discard k, .closeData k, .closeFrame k, .joinedA k, .push k, .sendOpen k, .joinedC k]
+  [.readStep k, .writeStep k, .flushStep k, .recvOpenStart k, .discard k, .closeData k, .closeFrame k, .joinedA k, .push k, .sendOpen k, .joinedC k]
 
 def queueEvents (s : State) : List Event :=
   (s.rngAcc.map (fun r => Event.pop false r.cap)) ++ (s.rngCon.map (fun r => Event.pop true r.cap))
 
-/-- internal events in scheduler priority order: the inbound loop runs until it blocks (as the real task does:
+/-- internal events in scheduler priority order: first the suspended senders on the channel `write_send` in the order in
+which they arrived (`first`, supplied by the driver: tokio's semaphore is fair; only matters when the slot becomes free),
+the writer task, then the inbound loop, which runs until it blocks (as the real task does:
 none of its awaits yields while input and permits are available), then the stream tasks, the queues, the flush.
 Stream tasks are tried in the order `prio` (scheduling advice supplied with the operation: which streams the real
 runtime let through `StreamQueue::push` first), then in wake order (`runq`), then by id. The order only selects one of
-the interleavings the LTS allows. -/
-def candidates (prio : List Key) (s : State) : List Event :=
+the interleavings the LTS allows. Cancellations and `txWindow` are never scheduled: they are operations. -/
+def candidates (first : List Event) (prio : List Key) (s : State) : List Event :=
   let ks := prio ++ s.runq.filter (fun k => !prio.contains k) ++
     (keysOf s).filter (fun k => !prio.contains k && !s.runq.contains k)
-  [.pump] ++ ks.flatMap keyEvents ++ queueEvents s ++ [.doFlush]
+  first ++ [.wtake, .wdo, .wblock, .pump] ++ ks.flatMap keyEvents ++ queueEvents s ++ [.doFlush]
 
-def pick (prio : List Key) (s : State) : Option (Event × State) :=
-  (candidates prio s).findSome? (fun e => (step? s e).map (fun s' => (e, s')))
+def pick (first : List Event) (prio : List Key) (s : State) : Option (Event × State) :=
+  (candidates first prio s).findSome? (fun e => (step? s e).map (fun s' => (e, s')))
 
 /-- run internal events until none is enabled (or the fuel runs out: `false`) -/
-def settle (prio : List Key) : Nat → State → State × Bool
+def settle (first : List Event) (prio : List Key) : Nat → State → State × Bool
   | 0, s => (s, false)
   | fuel + 1, s =>
-    match pick prio s with
+    match pick first prio s with
     | none => (s, true)
-    | some (_, s') => settle prio fuel s'
+    | some (_, s') => settle first prio fuel s'
+
+/-- the senders that are suspended on the channel slot right now: their step is enabled as soon as the slot is free -/
+def slotWaiters (s : State) : List Event :=
+  if s.chan.isNone then [] else
+  let free := { s with chan := none }
+  ((keysOf s).flatMap (fun k => [Event.writeStep k, .flushStep k, .closeData k, .closeFrame k, .sendOpen k]) ++ [Event.doFlush]).filter
+    (fun e => (step? s e).isNone && (step? free e).isSome)
 
 end EraVerif.Model.Mux
